@@ -228,37 +228,67 @@ def split_block(block_lines):
     return code, gaps
 
 
+def _insignificant(l):
+    t = l.strip()
+    return t == "" or t.startswith("//")
+
+
 def reattach(code_base, gaps, cur_lines, what):
-    a = [l.strip() for l in code_base]
-    b = [l.strip() for l in cur_lines]
-    # ignore blank lines at both ends
+    """Align on significant lines only (blank and comment-only lines of either side do not take part): comment
+    edits cannot move or lose annotations.  Insignificant current lines are emitted just before the next
+    significant current line; insignificant base lines vanish (their ghost lines move to the next code line)."""
+    # fold base: ghost lines in front of an insignificant base line are carried to the next significant one
+    b_sig, b_gaps, carry = [], [], []
+    for k, l in enumerate(code_base):
+        if _insignificant(l):
+            carry.extend(gaps[k])
+        else:
+            b_sig.append(l); b_gaps.append(carry + gaps[k]); carry = []
+    b_gaps.append(carry + gaps[len(code_base)])
+    c_sig, c_pre, pend = [], [], []
+    for l in cur_lines:
+        if _insignificant(l):
+            pend.append(l)
+        else:
+            c_sig.append(l); c_pre.append(pend); pend = []
+    c_tail = pend
+    a = [l.strip() for l in b_sig]
+    b = [l.strip() for l in c_sig]
     sm = difflib.SequenceMatcher(None, a, b, autojunk=False)
     out = []
     changed = []
+
+    def emit_cur(j):
+        out.extend(c_pre[j]); out.append(c_sig[j])
+
     for tag, i1, i2, j1, j2 in sm.get_opcodes():
         if tag == "equal":
             for m in range(i2 - i1):
-                out.extend(gaps[i1 + m]); out.append(cur_lines[j1 + m])
+                out.extend(b_gaps[i1 + m]); emit_cur(j1 + m)
         elif tag == "replace":
-            changed.append((code_base[i1:i2], cur_lines[j1:j2]))
+            changed.append((b_sig[i1:i2], c_sig[j1:j2]))
             if i2 - i1 == j2 - j1:
                 for m in range(i2 - i1):
-                    out.extend(gaps[i1 + m]); out.append(cur_lines[j1 + m])
+                    out.extend(b_gaps[i1 + m]); emit_cur(j1 + m)
             else:
-                inner = [g for k in range(i1 + 1, i2) for g in gaps[k]]
+                inner = [g for k in range(i1 + 1, i2) for g in b_gaps[k]]
                 if inner:
                     raise GenError("lost anchor in %s: annotated lines %r were rewritten" % (what, a[i1:i2][:3]))
-                out.extend(gaps[i1]); out.extend(cur_lines[j1:j2])
+                out.extend(b_gaps[i1])
+                for j in range(j1, j2):
+                    emit_cur(j)
         elif tag == "delete":
-            changed.append((code_base[i1:i2], []))
-            inner = [g for k in range(i1 + 1, i2) for g in gaps[k]]
+            changed.append((b_sig[i1:i2], []))
+            inner = [g for k in range(i1 + 1, i2) for g in b_gaps[k]]
             if inner:
                 raise GenError("lost anchor in %s: annotated lines %r were deleted" % (what, a[i1:i2][:3]))
-            out.extend(gaps[i1])
+            out.extend(b_gaps[i1])
         elif tag == "insert":
-            changed.append(([], cur_lines[j1:j2]))
-            out.extend(cur_lines[j1:j2])
-    out.extend(gaps[len(code_base)])
+            changed.append(([], c_sig[j1:j2]))
+            for j in range(j1, j2):
+                emit_cur(j)
+    out.extend(b_gaps[len(b_sig)])
+    out.extend(c_tail)
     return out, changed
 
 
@@ -521,6 +551,10 @@ def generate(spec_path, repo, vacuity=False):
             merged, changed = reattach(code_base, gaps, cur_lines, what)
             ren = infer_renames(changed, "\n".join(code_base))
             if ren:
+                ghost_ids = {t.text for ml in merged if _is_ghost(ml) for t in rl.lex(ml) if t.kind == "ident"}
+                clash = {b: b + "__g" for b in ren.values() if b in ghost_ids}
+                if clash:   # a ghost-only local already uses the new name: move it out of the way first
+                    merged = [rename_idents(ml, clash) if _is_ghost(ml) else ml for ml in merged]
                 merged = [rename_idents(ml, ren) if _is_ghost(ml) else ml for ml in merged]
                 report.setdefault("ghost_renames", []).append({"item": path, "renamed_locals": ren})
             sublog = []
